@@ -165,7 +165,7 @@ func (w *webTransport) send(packets []*packet.Packet) {
 					}
 					return
 				}
-				return
+				continue
 
 			}
 		}
